@@ -8,6 +8,7 @@ import UmapModel.Rng
 import Generated.LayoutSrc
 import Generated.UtilsSrc
 import UmapProofs.SrcLemmas
+import Mathlib.Tactic
 
 set_option linter.unusedSectionVars false
 
@@ -18,10 +19,16 @@ section generic
 variable {α : Type} [Add α] [Sub α] [Mul α] [Div α] [Neg α] [LT α] [LE α]
   [DecidableLT α] [DecidableLE α] [OfNat α 0] [OfNat α 1] [NatCast α] [Inhabited α]
 
-/-- `clip` as written in the source is the model's clamp into `[-4, 4]`. -/
-theorem clip_src (v : α) : SrcLayout.clip v = Sgd.clip v := by
+/-- `clip` as written in the source is the model's clamp into `[-4, 4]`, over any linear ordered field.  Proved by case
+    analysis on the order rather than by `rfl`, so that order-equivalent forms of the clamp (`max(-4, min(4, v))`) are accepted. -/
+theorem clip_src {K : Type} [Field K] [LinearOrder K] [IsStrictOrderedRing K] (v : K) :
+    SrcLayout.clip v = Sgd.clip v := by
   unfold SrcLayout.clip Sgd.clip
-  rfl
+  first
+    | rfl
+    | (simp only [maxV, minV]
+       push_cast
+       split_ifs <;> first | rfl | linarith | (exfalso; linarith))
 
 /-- `rdist` as written in the source is the model's squared distance (with the identity as rounding function:
     the model threads float32 rounding through `rnd`, the source text does not mention it), on the first
